@@ -46,9 +46,9 @@ def run(chk):
         s.job("simulation election, 30 steps", "election", ALL, 30, emit="last", simulate="num=400", rolls=3, timeout=1700)
         s.job("simulation voting, 30 steps", "voting", ALL, 30, emit="last", simulate="num=300", rolls=3, timeout=1700)
     else:
-        s.job("voting: first election", "voting", G.CR_KINDS, 3, emit="all", limit=500, rolls=1)
+        s.job("voting: first election", "voting", G.CR_KINDS, 3, emit="all", limit=350, rolls=1)
         s.job("agreed: tracking, withdrawal", "agreed", ["Tracking", "Withdraw", "RealWithdraw"], 3, emit="all",
-              limit=500, rolls=1)
+              limit=350, rolls=1)
         s.job("simulation election, 12 steps", "election", ALL, 12, emit="last", simulate="num=40", rolls=2)
         s.job("simulation duty, 12 steps", "duty", ALL, 12, emit="last", simulate="num=40", rolls=2)
     s.run_jobs(parallel=4 if not thorough else 8)
@@ -66,7 +66,7 @@ def run(chk):
     rb = G.pick(allb, lambda b: any(x["act"] == "Rollback" for x in b), s.rng) or G.pick(allb, lambda b: len(b) > 1, s.rng)
     idx = max(i for i, x in enumerate(rb) if x["act"] == "Rollback") if any(x["act"] == "Rollback" for x in rb) else len(rb) - 1
     rb = rb[: idx + 1]
-    rb[idx]["st"]["lvsh"] += 1
+    rb[idx]["st"]["per"][1] += 1          # LastVotingStartHeight
     chk.selftest("replay: expected state after a step corrupted", G.rejected(s.driver_once(cfgp, [rb])))
     fw = G.pick(allb, lambda b: sum(1 for x in b if x["act"] == "Block") >= 2, s.rng)
     recs = s.driver_once(cfgp, [fw], sweep=1, env={"CRSTATE_SELFTEST": "perturb"})
